@@ -79,6 +79,11 @@ def _worker_init(pid_, root, wall):
     _W["wd"] = wd
     faulthandler.enable()
     faulthandler.dump_traceback_later(wall, exit=True)
+    try:    # explosive memory use of the code under test ends as MemoryError in that run, not as an OOM-killed pool
+        import resource
+        resource.setrlimit(resource.RLIMIT_AS, (6 << 30, 6 << 30))
+    except Exception:
+        pass
 
 
 def _summ(results, idx, seed):
@@ -109,7 +114,7 @@ def _fresh_library():
     _W["batches"] = _W.get("batches", 0) + 1
 
 
-def _run_batch(base_seed, pid_, start, count, det_every, want_samples):
+def _run_batch(base_seed, pid_, start, count, det_every, want_samples, stop_at=None):
     import gc
     if _W.get("batches") is not None:
         _fresh_library()
@@ -119,6 +124,10 @@ def _run_batch(base_seed, pid_, start, count, det_every, want_samples):
     agg = {"evals": 0, "seeds": 0, "faults": Counter(), "probes": Counter(), "sim_time": 0.0,
            "inter": set(), "viol": [], "det": {}, "samples": [], "trips": 0, "harness": None, "t0": time.time()}
     for i in range(start, start + count):
+        if stop_at is not None and time.time() > stop_at and i > start:
+            break                      # the sweep's wall budget is used up: hand back what was explored
+        if any(v["key"].endswith(("run-exceeded-real-time-budget", "run-exhausted-memory")) for v in agg["viol"][-3:]):
+            break                      # the tree under test spins or explodes: no point in burning the whole batch
         seed = mix(base_seed, pid_, i)
         try:
             results = run_seed(prop, seed, _W["wd"])
@@ -376,7 +385,7 @@ def _main(prop, pid_, tier, base_seed, runs, wall, workers, root, t0, args):
                     s = next(it)
                 except StopIteration:
                     return False
-                pending.add(ex.submit(_run_batch, base_seed, pid_, s, min(batch, runs - s), det_every, 2 if submitted < 6 else 0))
+                pending.add(ex.submit(_run_batch, base_seed, pid_, s, min(batch, runs - s), det_every, 2 if submitted < 6 else 0, deadline + 15.0))
                 submitted += 1
                 return True
 
